@@ -58,7 +58,8 @@ pub fn run(seed: u64, ntraces: usize) {
                                                // the limit is lowered to ZERO in an epoch that already has flow in both directions: nothing is rejected for flow reasons any more
                                                forced.extend(vec![(2, 0), (1, 10), (0, 10), (1, 5000), (0, 60), (2, 40)]); }
         // directed role schedule (every third trace): propose, accept, hand back, replay the accept; (kind, 10*caller + target) over users [s, op, m, f, x]
-        if t % 3 == 1 && operator.is_some() { forced = vec![(7, 14), (8, 41), (6, 41), (8, 41), (7, 13), (7, 14), (8, 31), (8, 41), (8, 41),
+        if t % 3 == 1 && operator.is_some() { forced = vec![(7, 14), (6, 12), (8, 41), (6, 21),      // a STALE proposal: the proposer hands the role on before the proposed account accepts (refused), then gets it back
+                                                           (7, 14), (8, 41), (6, 41), (8, 41), (7, 13), (7, 14), (8, 31), (8, 41), (8, 41),
                                                            // a proposal of one role is not an offer of the other: operatorship proposed, mintership 'accepted' (refused), and the reverse
                                                            (7, 34), (11, 43), (8, 43), (10, 23), (8, 32), (11, 32)]; }
         // directed: the operator takes the flow-limiter role away from the service, which then tries to move the limit (kinds 3/4/5: 10*caller + target)
